@@ -266,6 +266,14 @@ func (g *Generator) buildFlattenedOneofSchema(
 ) *base.SchemaProxy {
 	msgName := g.getSchemaName(message)
 
+	// Non-flattened discriminated oneofs of the same message keep their keys in every variant schema
+	var nestedOneofs []*annotations.OneofDiscriminatorInfo
+	for _, info := range discriminatedOneofs {
+		if !info.Flatten {
+			nestedOneofs = append(nestedOneofs, info)
+		}
+	}
+
 	// For each flattened oneof, generate per-variant schemas
 	var allVariantRefs []*base.SchemaProxy
 	var allMappings []*annotations.OneofDiscriminatorInfo
@@ -275,7 +283,7 @@ func (g *Generator) buildFlattenedOneofSchema(
 			continue
 		}
 
-		refs := g.buildFlattenedVariantSchemas(message, info, msgName, oneofFields)
+		refs := g.buildFlattenedVariantSchemas(message, info, msgName, oneofFields, nestedOneofs)
 		allVariantRefs = append(allVariantRefs, refs...)
 		allMappings = append(allMappings, info)
 	}
@@ -304,6 +312,7 @@ func (g *Generator) buildFlattenedVariantSchemas(
 	info *annotations.OneofDiscriminatorInfo,
 	msgName string,
 	oneofFields map[string]bool,
+	nestedOneofs []*annotations.OneofDiscriminatorInfo,
 ) []*base.SchemaProxy {
 	var refs []*base.SchemaProxy
 
@@ -325,6 +334,9 @@ func (g *Generator) buildFlattenedVariantSchemas(
 				variantRequired = append(variantRequired, fieldName)
 			}
 		}
+
+		// Add the discriminator and variant properties of the non-flattened discriminated oneofs
+		variantRequired = g.addNestedOneofProperties(nestedOneofs, variantProps, variantRequired)
 
 		// Add discriminator field
 		discSchema := &base.Schema{
@@ -466,6 +478,27 @@ func (g *Generator) buildNestedOneofVariants(
 	}
 
 	return oneOfSchemas, discInfo
+}
+
+// addNestedOneofProperties describes the keys that non-flattened discriminated oneofs put on the
+// wire (the discriminator and one property per variant) as plain properties and returns the
+// required list extended by the variants that carry the required rule.
+func (g *Generator) addNestedOneofProperties(
+	discriminatedOneofs []*annotations.OneofDiscriminatorInfo,
+	properties *orderedmap.Map[string, *base.SchemaProxy],
+	required []string,
+) []string {
+	g.buildNestedOneofVariants(discriminatedOneofs, properties)
+	for _, info := range discriminatedOneofs {
+		for _, variant := range info.Variants {
+			fieldName := variant.Field.Desc.JSONName()
+			properties.Set(fieldName, g.convertField(variant.Field))
+			if checkIfFieldRequired(variant.Field) {
+				required = append(required, fieldName)
+			}
+		}
+	}
+	return required
 }
 
 // buildNestedDiscriminator creates the discriminator object with mapping for a nested oneof.
